@@ -6,6 +6,16 @@ import os
 VERIF = os.path.dirname(os.path.dirname(os.path.abspath(__file__)))
 
 CLAIMED = {
+    "C01": dict(text="Coq theorems (22) for arbitrary mode lists, fused groups, stacks and sizes: the constructor's fuse plan never fails, equals the "
+                     "occurrence-counting spec plan and fills every position by its own loader or the winning joint load; __getitem__ equals the spec "
+                     "sample position by position ('index' gives i, named items the loader's value alone or jointly, ctx.k what was recorded since a "
+                     "fresh ctx), bare value for one item / tuple for several, ctx appended iff requested and holding only this call's keys, every "
+                     "access history independent of earlier accesses; negative indices, slices (closed formulas = language reference), index lists, "
+                     "iteration and len follow sequence semantics; has/get/set_item laws. Model tied to /repo by random stacks with token-returning "
+                     "and ctx-stamping loaders on the real ModeWrapper every run.",
+                ref="2 C01 / 7.18", note="Coq kernel+vm_compute; hand-written model coq/C01/Model.v; the stack below the wrapper is abstracted into what it "
+                "answers (delegation cross-checked by the Python oracle); out-of-range ints and __getattr__ delegation outside the claim",
+                technique="Coq proofs (list induction over the mode / fuse plan, Z arithmetic for slices) over a hand-written model + vm_compute correspondence with the real ModeWrapper"),
     "C02": dict(text="Coq theorems by induction over arbitrary nestings of subset / concat / balanced concat / wrapper layers: resolve s k = "
                      "nth k (map_of s) for -len <= k < len (map_of = composition of the layers' index maps), len = length of the map, "
                      "balanced concat round-robins, bisect lookup is the inverse of the cumulative sizes (also negative k), getall = map of "
@@ -50,6 +60,23 @@ CLAIMED = {
                 ref="2 C07", note="Coq kernel+vm_compute; translator harness/translate_rng.py (fail-closed) trusted modulo the live-tree "
                 "comparison; torchvision/PIL determinism for equal draws observed, not proved",
                 technique="Coq proof (nested induction over object trees) over a table regenerated from source by an ast translator + finite exhaustive table check by vm_compute + live differential runs"),
+    "C08": dict(text="Coq theorems (9) over the shared provenance theory and the wrapper table REGENERATED from /repo's sources on every run: for a "
+                     "closed table and any well-formed seeded wrapper, after EVERY history of earlier getitems the draws for item i come from "
+                     "Inj(seed+i) only (seeded_wrapper_pure, access_sequence_pure, any_two_copies_agree, stack_pure for several seeded layers), "
+                     "seed+i is injective and no generator serves two indices; wrapper_table_closed by vm_compute on the regenerated table. Tied "
+                     "to the running code by real seeded wrappers (transform wrappers, multi-view, MUGS/BYOL/minaug, mix, semseg) in stacks, "
+                     "random access orders with repeats, two instances under different global states with tripwire; thorough: DataLoader with 0-3 workers.",
+                ref="2 C08 / 7.16", note="Coq kernel+vm_compute; translator harness/translate_rng.py (fail-closed); object graphs are trees; pixel determinism observed",
+                technique="Coq proof (induction over access histories and object trees) over a table regenerated from source + finite table check by vm_compute + live differential runs"),
+    "C09": dict(text="Coq theorems (9) over the shared provenance theory and the wrapper / collator / dataset-class tables regenerated from source: for "
+                     "closed tables and ANY dataset stack and transform tree, after worker_init every drawable generator slot is Wrk j (seeded from "
+                     "the j-th draw of the worker's own global RNG), none is still the copy inherited from the parent; the result is a function "
+                     "of the stack's shape and the worker seed; no worker seed lands in two units; table closedness by vm_compute. Tied to the "
+                     "running code by simulated workers (deepcopy, np.random.seed(ws), worker_init_fn) recording generator identity and the "
+                     "first 64 draws of every member generator; thorough: real DataLoader with 2/3 workers.",
+                ref="2 C09 / 7.16", note="Coq kernel+vm_compute; translator trusted modulo the live comparison; that differently seeded NumPy generators "
+                "give unrelated streams is NumPy's property (observed on 64 draws)",
+                technique="Coq proof (induction over dataset stacks and object trees) over tables regenerated from source + finite table check by vm_compute + live worker simulation"),
     "C10": dict(text="Coq theorems for every batch size, image size, mode combination, probability split and draw sequence within the "
                      "generator contract: image and label of sample i share partner and weight (retained pixel fraction counted "
                      "pixel by pixel = label weight = ctx lambda), boxes in bounds, adjusted lambda = area fraction, lambda in [0,1], "
@@ -111,6 +138,24 @@ CLAIMED = {
                 ref="2 C19 / 7.13", note="Coq kernel+vm_compute; hand-written model coq/C19/Model.v; Manager proxy operations assumed atomic and by value, "
                 "pickling faithful",
                 technique="Coq proofs (invariant over a small-step interleaving semantics, induction over schedules) + vm_compute correspondence incl. deterministic schedule replay on the real class"),
+    "C14": dict(text="Coq theorems (25) for every input size, target, padding, parameter and contract-satisfying draw: crop / simple crop / two-crop "
+                     "windows in bounds with the requested size (overlap recorded truthfully), resized crop in bounds on both branches (guard alone "
+                     "sufficient), erasing rectangles and spec-augment masks in bounds and shorter than the parameter, semseg pipelines apply one "
+                     "geometry to image and mask with every pad/crop in bounds, patchify/unpatchify and shuffle/unshuffle (argsort of the recorded "
+                     "permutation) are mutual inverses by div/mod arithmetic with no size bound, norm/denorm inverse over Q. Model tied to /repo by "
+                     "recomputing every recorded parameter from the recorded draws and re-applying torchvision ops by hand on the real outputs.",
+                ref="2 C14 / 7.14", note="Coq kernel+vm_compute; hand-written model coq/C14/Model.v; float candidates (sqrt/exp/round) are oracle values whose "
+                "contract is checked per case; interpolation numerics not modelled",
+                technique="Coq proofs (Z div/mod arithmetic, lia/lra, list induction) over a hand-written model + vm_compute correspondence with the real transforms"),
+    "C15": dict(text="Coq theorems (14) re-checked on every run against a model GENERATED from /repo's _scale_strength bodies by an ast translator: for "
+                     "every scaling class and every compose tree scale 1 restores the constructed ranges (also after any history), scale 0 gives the "
+                     "weakest setting, every bound is monotone in the factor, only the last factor matters (Leibniz equality); scheduled transform: "
+                     "round-robin arithmetic (the s-th sample of worker r of W is in global batch (s/B)*W+r, bijection, order kept) and the value "
+                     "applied and reported is the schedule's value at that global batch for all W, B, N. Tied to the running code by scaling real "
+                     "instances with random factor sequences and simulated / real DataLoader workers.",
+                ref="2 C15 / 7.15", note="Coq kernel+vm_compute; translator harness/translate_strength.py (fail-closed) validated by the correspondence; binary64 "
+                "vs Q compared at 1e-12 relative; transforms that do not forward scale_strength are opaque",
+                technique="Coq proofs (lra/ring over Q, induction over compose trees, div/mod) over a translator-generated model + vm_compute correspondence"),
     "C16": dict(text="Coq theorems for all label layouts / parameters / draw sequences: bulk accessor = map of the per-sample "
                      "accessor for each of the eight label-rewriting wrappers, labels within the announced class shape (or -1 where "
                      "allowed), all-gather permutation shape, smoothing/one-hot vectors over Q are distributions with the original "
@@ -120,6 +165,15 @@ CLAIMED = {
                 "rearrange and np.argsort semantics trusted (decisions shipped by the harness); 'other data untouched' checked on "
                 "the real objects only",
                 technique="Coq proofs (list induction, QArith) over a hand-written model + vm_compute correspondence with the real wrappers"),
+    "C20": dict(text="Coq theorems (16) for ALL histories (any number of killed invocations at arbitrary primitive-operation boundaries, arbitrary "
+                     "deletion orders, arbitrary source trees: plain folder, zip, folder of zips): whenever a call returns the local folder is a "
+                     "complete copy or a pre-existing manual folder left unchanged (crash_safe), via the invariant 'dst exists => start marker "
+                     "present, end marker only on a complete copy'; a completed copy is never redone (no system call), the result is truthful, other "
+                     "files untouched; the pre-fix plans are refuted with both crash windows. Model tied to /repo by running the real functions with "
+                     "simulated kills after every primitive operation and comparing trace, tree and result; thorough: real SIGKILL at system-call "
+                     "granularity via strace injection.",
+                ref="2 C20 / 7.17", note="Coq kernel+vm_compute; hand-written model coq/C20/Model.v; process death not power loss; rename(2) atomic; honest directory listings",
+                technique="Coq proofs (invariant over crash histories, induction over operation prefixes) over a hand-written file-system model + vm_compute correspondence with fault injection on the real code"),
 }
 
 ALL = ["C%02d" % i for i in range(1, 21)]
